@@ -42,7 +42,7 @@ TRUSTED = [
     "extraction (ExtrOcamlBasic only) + extract/quote_driver.ml + props/quote_common.py",
 ]
 
-HASHABLE_ATOMS = [0, 1, -1, 2, 7, 255, 2 ** 70, -(2 ** 65), True, False, None, 1.5, -0.0, 0.0, float("inf"), 1e300, "", "a", "k",
+HASHABLE_ATOMS = ["]None]", "a]None]b", "None", 0, 1, -1, 2, 7, 255, 2 ** 70, -(2 ** 65), True, False, None, 1.5, -0.0, 0.0, float("inf"), 1e300, "", "a", "k",
                   "x y", "é", "中\U0001F991", "]", "\n", b"", b"\x00\xff", 3j, complex(1, -0.0), complex(-0.0, 2)]
 
 
@@ -56,8 +56,10 @@ class Gen29:
     def atom(self):
         rng, M = self.rng, self.M
         r = rng.random()
-        if r < 0.55:
+        if r < 0.50:
             return rng.choice(HASHABLE_ATOMS)
+        if r < 0.55:
+            return qc.adversarial_string(rng)
         if r < 0.65:
             return qc.from_bits(qc.gen_float_bits(rng))
         if r < 0.72:
@@ -66,6 +68,8 @@ class Gen29:
             return rng.getrandbits(rng.choice([8, 40, 90])) - rng.choice([0, 1 << 39])
         if r < 0.90:
             return M.Keyword(rng.choice(["k", "", "foo-bar", "a/b", "x1", "é"]))
+        if r < 0.95:
+            return qc.adversarial_string(rng)
         return "".join(rng.choice(qc.TEXTS) for _ in range(rng.choice([1, 2])))
 
     def hashable(self, depth):
